@@ -2,48 +2,15 @@
 """Regenerates /verif/MANIFEST.json from the table below (single source of truth for the interface)."""
 import json
 import os
+import sys
+
+sys.path.insert(0, os.path.dirname(os.path.abspath(__file__)))
 
 ROOT = os.path.dirname(os.path.dirname(os.path.abspath(__file__)))
 ALL = ["C%02d" % i for i in range(1, 21)]
 
 # property -> (technique, level category, level text, level note, design ref)
-CLAIMED = {
-    "C19": ("TLA+ specs OrderedSet/OneOrSet/OneOrMany model-checked by TLC; every TLC transition replayed on the real "
-            "collections; recorded random histories validated by TLC trace specs",
-            "model_checking",
-            "TLC enumerates every (abstract state, operation, argument) transition of the three collection specs inside a "
-            "small key/value universe and checks key-uniqueness, non-emptiness, the singleton-shape rule and per-operation "
-            "order/flag laws on each; the Rust harness replays every transition on the real types and compares result flag, "
-            "resulting order and JSON shape; long seeded random histories of the real types are validated against the spec "
-            "by TLC (trace validation) with a corrupted-trace canary on every run.",
-            "Exhaustive only inside the cfg universe (3-4 keys, 2 payload values, lists up to 3); beyond it seeded random. "
-            "serde_json trusted.",
-            "DESIGN.md §3 C19"),
-    "C12": ("TLA+ spec StatusList (bit-vector window + credential layer + validator status) model-checked by TLC; every "
-            "transition replayed on real lists at several placements; recorded histories validated by TLC",
-            "model_checking",
-            "TLC enumerates every (window value, op, argument) transition of the one-byte (quick) / two-byte (thorough) window "
-            "model for both purposes and checks bit independence, refusal-leaves-unchanged, one-way revocation, reversible "
-            "suspension and the reported-status equivalence as action properties; each transition is replayed on real "
-            "StatusList2021 / StatusList2021Credential objects at several list sizes and byte offsets, decoding the library's "
-            "own encoded list independently to compare the window and to check all other bytes stay zero; random histories of "
-            "live objects are trace-validated.",
-            "gzip/base64 codecs trusted; window of 8/16 bits, all other bytes only checked to remain zero.",
-            "DESIGN.md §3 C12"),
-    "C04": ("TLA+ spec Document (set-of-entries model of CoreDocument, code-shaped guards) model-checked by TLC; every "
-            "transition and every state's resolution table replayed on real documents; random histories trace-validated",
-            "model_checking",
-            "TLC explores every document reachable from every small valid initial document (incl. dangling/foreign references) "
-            "under all six checked mutations with every argument, checking the id-uniqueness/aliasing/service-id invariants in "
-            "every state and refusal-leaves-unchanged on every transition; each transition is replayed on real CoreDocuments "
-            "(deserialised and builder-built, model relationships mapped onto all order-preserving choices of the five real "
-            "ones) comparing result, resulting document, JSON round trip, and the complete resolution table (every query x "
-            "scope, resolve_method/_mut/resolve_service, by entry identity); long random histories over 12 ids x 5 "
-            "relationships are validated against the spec by TLC.",
-            "Exhaustive inside 3 ids x 2 relationships (quick) / 4 ids incl. a URL-query variant (thorough, sampled replay); "
-            "method/service content other than ids assumed irrelevant.",
-            "DESIGN.md §3 C04"),
-}
+from claims import CLAIMED  # noqa: E402
 
 NOT_YET = "check not built yet in this session (work in progress; see DESIGN.md §3 for the planned TLA+ spec and binding)"
 
